@@ -9,6 +9,8 @@ which expression to write into the spec and what it evaluates to:
   ["lit", v]        static literal v (written as is)                 -> value v
   ["in", v]         "=inputs.<fresh name>" with inputs.<name> = v    -> value v
   ["cel", src, v]   the expression src, known to evaluate to v       -> value v
+  ["fn", tpl, a, v] the expression tpl.format("inputs.<fresh name>") with inputs.<name> = a, known to
+                    evaluate to v (koreo's CEL extension functions applied to inputs)  -> value v
   ["err", src]      an expression that fails with an error *value*   -> embedded CELEvalError
   ["raise", src]    an expression whose failure *raises* through the enclosing literals (macro body)
 The harness builds the real spec from the documents, runs the real code, and hands the
@@ -165,6 +167,10 @@ class Builder:
             name = f"v{len(self.inputs)}"
             self.inputs[name] = leaf[1]
             return f"=inputs.{name}"
+        if k == "fn":
+            name = f"v{len(self.inputs)}"
+            self.inputs[name] = leaf[2]
+            return leaf[1].format(f"inputs.{name}")
         return leaf[1]          # cel / err / raise: the source text
 
     def spec(self, doc):
@@ -181,6 +187,8 @@ def leaf_tree(leaf):
         return tree_of(leaf[1])
     if k == "cel":
         return tree_of(leaf[2])
+    if k == "fn":
+        return tree_of(leaf[3])
     return ["e"]                # err (and raise: never reaches the model as a value)
 
 
@@ -643,7 +651,7 @@ def view(pred):
         if failing(leaf):
             v["a"] = ("err",)
         else:
-            val = leaf[2] if leaf[0] == "cel" else leaf[1]
+            val = leaf_value(leaf)
             v["a"] = ("bool", val) if isinstance(val, bool) else ("nonbool",)
     elif "assert" in d:
         v["a"] = ("nonbool",)
@@ -668,7 +676,7 @@ def view(pred):
 
 
 def leaf_value(leaf):
-    return leaf[2] if leaf[0] == "cel" else leaf[1]
+    return leaf[3] if leaf[0] == "fn" else leaf[2] if leaf[0] == "cel" else leaf[1]
 
 
 CLS_OF_KIND = {"depSkip": 0, "skip": 1, "retry": 3, "permFail": 4}
@@ -825,9 +833,65 @@ def pred(a_leaf, kind, msg_leaf=None, delay_leaf=None, assert_last=False, extra=
 TRUE_LEAVES = [["in", True], ["cel", "=true", True], ["lit", True], ["cel", "=1 == 1", True], ["cel", "=!false", True]]
 FALSE_LEAVES = [["in", False], ["cel", "=false", False], ["lit", False], ["cel", "=1 == 2", False],
                 ["cel", "=!true", False]]
+# koreo's CEL extension functions as assertions: the only one that returns a boolean
+# (config_connect_ready) over resources that drive it to true and to false through each of its exits,
+# and comparisons built on the others
+def _kcc(*conds, status=True):
+    r = {"apiVersion": "x/v1", "kind": "K", "metadata": {"name": "n", "namespace": "ns"}}
+    if status:
+        r["status"] = {"conditions": list(conds)} if conds != (None,) else {}
+    return r
+
+
+_READY = {"type": "Ready", "reason": "UpToDate", "status": "True"}
+CCR = "=config_connect_ready({0})"
+FN_TRUE_LEAVES = [
+    ["fn", CCR, _kcc(_READY), True],
+    ["fn", CCR, _kcc({"type": "Other", "status": "False"}, _READY), True],
+    ["fn", "=!config_connect_ready({0})", _kcc(dict(_READY, status="False")), True],
+    ["fn", "=config_connect_ready({0}) == true", _kcc(_READY), True],
+    ["fn", "=lower({0}) == 'abc'", "AbC", True],
+    ["fn", "=split({0}, ',')[1] == 'b'", "a,b,c", True],
+    ["fn", "=split_first({0}, '/') == 'apps'", "apps/v1", True],
+    ["fn", "=split_last({0}, '/') == 'v1'", "apps/v1", True],
+    ["fn", "=split_index({0}, '-', 1) == 'y'", "x-y-z", True],
+    ["fn", "=strip({0}, '-') == 'a'", "--a--", True],
+    ["fn", "=rstrip({0}, '/') == 'a'", "a//", True],
+    ["fn", "=replace({0}, 'a', 'b') == 'bbb'", "aba", True],
+    ["fn", "=size(flatten({0})) == 3", [[1], [2, 3]], True],
+    ["fn", "=to_ref({0}).name == 'n'", {"name": "n", "kind": "K"}, True],
+    ["fn", "=self_ref({0}).kind == 'K'", _kcc(), True],
+    ["fn", "=group_ref({0}).apiGroup == 'apps'", {"apiVersion": "apps/v1", "name": "n"}, True],
+    ["fn", "=has(kindless_ref({0}).namespace)", {"name": "n", "namespace": "ns"}, True],
+    ["fn", "=from_json({0}).a == 1", "{\"a\": 1}", True],
+    ["fn", "=to_json({0}) == '{{\"a\": 1}}'", {"a": 1}, True],
+    ["fn", "=b64decode(b64encode({0})) == 'hi'", "hi", True],
+    ["fn", "=overlay({0}, {{'b': 2}}).b == 2", {"a": 1}, True],
+]
+FN_FALSE_LEAVES = [
+    ["fn", CCR, _kcc(dict(_READY, status="False")), False],
+    ["fn", CCR, _kcc(dict(_READY, status="Unknown")), False],
+    ["fn", CCR, _kcc(dict(_READY, reason="Updating")), False],
+    ["fn", CCR, _kcc(_READY, _READY), False],
+    ["fn", CCR, _kcc({"type": "Other", "status": "True"}), False],
+    ["fn", CCR, _kcc(), False],
+    ["fn", CCR, _kcc(None), False],
+    ["fn", CCR, _kcc(status=False), False],
+    ["fn", "=!config_connect_ready({0})", _kcc(_READY), False],
+    ["fn", "=lower({0}) == 'abc'", "abd", False],
+    ["fn", "=split_first({0}, '/') == 'apps'", "batch/v1", False],
+    ["fn", "=size(flatten({0})) == 3", [[1], [2]], False],
+    ["fn", "=to_ref({0}).name == 'n'", {"name": "m"}, False],
+    ["fn", "=has(kindless_ref({0}).namespace)", {"name": "n"}, False],
+    ["fn", "=from_json({0}).a == 1", "{\"a\": 2}", False],
+    ["fn", "=overlay({0}, {{'b': 2}}).b == 3", {"a": 1}, False],
+]
+
 NONBOOL_LEAVES = [["lit", "false"], ["lit", "true"], ["in", 5], ["in", 0], ["in", "x"], ["in", None], ["in", [True]],
                   ["in", 1.5], ["in", {}], ["lit", 0], ["lit", 1], ["cel", "='true'", "true"], ["in", ""],
                   ["in", {"assert": True}]]
+TRUE_LEAVES += FN_TRUE_LEAVES
+FALSE_LEAVES += FN_FALSE_LEAVES
 ERR_LEAVES = [["err", "=1/0"], ["err", "=inputs.nope"], ["err", "=inputs.nope.x"], ["err", "=to_ref({})"],
               ["err", "=from_json('{')"], ["err", "=[1][5]"], ["err", "=int('x')"],
               ["raise", "=[1].map(x, x/0)"], ["raise", "=[1, 2].filter(x, x/0 == 1)"],
@@ -932,6 +996,23 @@ def gen_special(ctx: Ctx):
         for truth in (True, False):
             yield {"mode": "pred", "preds": [std_pred(0, "skip", truth), pred(VALUE_ERROR_ASSERT, kind, ["lit", "m"], ["lit", 3])],
                    "tag": "special:python-exception-in-assert"}
+
+
+def gen_functions(ctx: Ctx):
+    """every extension-function assertion (true and false variants) x every outcome kind, as the
+    deciding assertion and next to another false one; also as real Value-/ResourceFunction conditions"""
+    rng = ctx.rng
+    for leaf in FN_TRUE_LEAVES + FN_FALSE_LEAVES:
+        for kind in KINDS:
+            p = pred(leaf, kind, ["lit", f"fn {kind}"], ["lit", 17])
+            yield {"mode": "pred", "preds": [p], "tag": "functions"}
+            yield {"mode": "pred", "preds": [std_pred(0, "skip", True), p, std_pred(2, "permFail", False)],
+                   "tag": "functions"}
+        p = pred(leaf, rng.choice(KINDS[1:]), ["lit", "fn"], ["lit", 17])
+        yield {"mode": "vf", "preds": [p], "locals": None, "ret": M(("r", L(["lit", 1]))), "base": None, "tag": "vf-functions"}
+        if RF_AVAILABLE:
+            yield {"mode": "rfc", "preds": None, "locals": None, "post": [p], "ret": RFC_RETURNS[1],
+                   "lookup": False, "tag": "rfc-functions"}
 
 
 def gen_random(ctx: Ctx):
@@ -1081,6 +1162,7 @@ def gen_cases(ctx: Ctx):
     yield from gen_exhaustive(ctx)
     yield from gen_positions(ctx)
     yield from gen_special(ctx)
+    yield from gen_functions(ctx)
     yield from gen_random(ctx)
     yield from gen_vf(ctx)
     yield from gen_rf(ctx)
